@@ -661,6 +661,397 @@ static void run_forest(vrt_rng *r, int idx, int max_es, int cap)
     vrt_count(c_cases, 1);
 }
 
+
+/* ======================================================================= */
+/* mode=join (C03): join/free return after, and only after, termination */
+enum { JC_ULT_SAME = 0, JC_ULT_OTHER, JC_TASKLET, JC_PRIMARY, JC_EXT };
+enum { JB_RETURN = 0, JB_SELF_EXIT, JB_THREAD_EXIT, JB_EXIT_TO, JB_CANCEL_BEFORE, JB_CANCEL_RUNNING, JB_BLOCK_FIRST };
+enum { JT_BEFORE_START = 0, JT_WHILE_RUNNING, JT_AFTER_TERM };
+static const char *jc_name[] = { "ult-same-stream", "ult-other-stream", "tasklet", "primary", "external" };
+static const char *jb_name[] = { "return", "self_exit", "thread_exit", "exit_to", "cancel-before-start", "cancel-while-running", "block-first" };
+static const char *jt_name[] = { "before-start", "while-running", "after-termination" };
+
+typedef struct {
+    int caller, tkind, behav, timing, api;
+    ABT_thread th[2];
+    int ntargets;
+    uint64_t pattern[2][64];
+    uint64_t salt;
+    int started[2];   /* atomic */
+    int body_done[2]; /* atomic */
+    int slices[2];    /* atomic */
+    int joiner_in;    /* atomic */
+    int joiner_done;  /* atomic */
+    int blocker_running, release; /* atomic */
+    ABT_thread helper; /* exit_to target */
+    int helper_ran;    /* atomic */
+    ABT_eventual ev;
+    int tpool;         /* pool index of the targets */
+} jtrial_t;
+
+static int c_jtrials, c_jcaller[5], c_jbehav[7], c_jtiming[3], c_jmany, c_jdistinct;
+
+static void jhelper_fn(void *arg)
+{
+    jtrial_t *t = (jtrial_t *)arg;
+    __atomic_store_n(&t->helper_ran, 1, __ATOMIC_SEQ_CST);
+}
+
+static void jtarget_common(jtrial_t *t, int which, int is_task)
+{
+    __atomic_store_n(&t->started[which], 1, __ATOMIC_SEQ_CST);
+    if (t->timing == JT_WHILE_RUNNING && t->behav != JB_CANCEL_RUNNING) {
+        /* keep running until the joiner is (about to be) inside join */
+        while (!__atomic_load_n(&t->joiner_in, __ATOMIC_SEQ_CST)) {
+            if (is_task)
+                sched_yield();
+            else
+                ABT_thread_yield();
+            __atomic_fetch_add(&t->slices[which], 1, __ATOMIC_RELAXED);
+        }
+    }
+    if (t->behav == JB_CANCEL_RUNNING) {
+        /* runs until cancelled (the joiner cancels, then joins) */
+        for (;;) {
+            __atomic_fetch_add(&t->slices[which], 1, __ATOMIC_SEQ_CST);
+            ABT_thread_yield();
+        }
+    }
+    if (t->behav == JB_BLOCK_FIRST)
+        VRT_ABT(ABT_eventual_wait(t->ev, NULL));
+    for (int i = 0; i < 64; i++)
+        t->pattern[which][i] = vrt_hash64(t->salt + (uint64_t)which * 1000 + (uint64_t)i);
+    __atomic_store_n(&t->body_done[which], 1, __ATOMIC_SEQ_CST);
+    if (is_task)
+        return;
+    if (t->behav == JB_SELF_EXIT) {
+        ABT_self_exit();
+        vrt_violation("join:ran-after-exit", "target continued after ABT_self_exit");
+    } else if (t->behav == JB_THREAD_EXIT) {
+        ABT_thread_exit();
+        vrt_violation("join:ran-after-exit", "target continued after ABT_thread_exit");
+    } else if (t->behav == JB_EXIT_TO && which == 0) {
+        ABT_self_exit_to(t->helper);
+        vrt_violation("join:ran-after-exit", "target continued after ABT_self_exit_to");
+    }
+}
+static void jtarget0(void *arg)
+{
+    jtrial_t *t = (jtrial_t *)arg;
+    jtarget_common(t, 0, t->tkind == 1);
+}
+static void jtarget1(void *arg)
+{
+    jtrial_t *t = (jtrial_t *)arg;
+    jtarget_common(t, 1, t->tkind == 1);
+}
+static void jblocker(void *arg)
+{
+    jtrial_t *t = (jtrial_t *)arg;
+    __atomic_store_n(&t->blocker_running, 1, __ATOMIC_SEQ_CST);
+    while (!__atomic_load_n(&t->release, __ATOMIC_SEQ_CST))
+        sched_yield(); /* occupies the stream without yielding to the scheduler */
+}
+
+static void jcheck_after(jtrial_t *t, const char *what, int joined_only)
+{
+    for (int k = 0; k < t->ntargets; k++) {
+        int cancelled = t->behav == JB_CANCEL_BEFORE || t->behav == JB_CANCEL_RUNNING;
+        if (!cancelled) {
+            if (!__atomic_load_n(&t->body_done[k], __ATOMIC_SEQ_CST)) {
+                vrt_violation("join:returned-before-termination",
+                              "%s returned (caller %s, target %s behaviour %s, join issued %s) but the target's "
+                              "function has not finished (started=%d)", what, jc_name[t->caller],
+                              t->tkind ? "tasklet" : "ULT", jb_name[t->behav], jt_name[t->timing], t->started[k]);
+                return;
+            }
+            for (int i = 0; i < 64; i++)
+                if (t->pattern[k][i] != vrt_hash64(t->salt + (uint64_t)k * 1000 + (uint64_t)i)) {
+                    vrt_violation("join:target-writes-not-visible",
+                                  "%s returned (caller %s) but word %d written by the target is not visible", what,
+                                  jc_name[t->caller], i);
+                    return;
+                }
+        }
+        if (joined_only && t->th[k] != ABT_THREAD_NULL) {
+            ABT_thread_state st;
+            if (ABT_thread_get_state(t->th[k], &st) == ABT_SUCCESS && st != ABT_THREAD_STATE_TERMINATED)
+                vrt_violation("join:state-not-terminated", "%s returned (caller %s, behaviour %s, %s) but the target's "
+                              "state is %d", what, jc_name[t->caller], jb_name[t->behav], jt_name[t->timing], (int)st);
+        }
+        if (t->behav == JB_CANCEL_RUNNING) {
+            int s1 = __atomic_load_n(&t->slices[k], __ATOMIC_SEQ_CST);
+            for (volatile int i = 0; i < 20000; i++)
+                ;
+            int s2 = __atomic_load_n(&t->slices[k], __ATOMIC_SEQ_CST);
+            if (s1 != s2)
+                vrt_violation("join:target-still-running", "%s returned but the cancelled target keeps running", what);
+        }
+    }
+}
+
+static void jjoiner_do(jtrial_t *t)
+{
+    if (t->timing == JT_AFTER_TERM) {
+        /* wait until the target(s) are terminated */
+        for (int k = 0; k < t->ntargets; k++) {
+            for (;;) {
+                ABT_thread_state st = ABT_THREAD_STATE_READY;
+                ABT_thread_get_state(t->th[k], &st);
+                if (st == ABT_THREAD_STATE_TERMINATED)
+                    break;
+                if (t->caller == JC_EXT || t->caller == JC_TASKLET)
+                    sched_yield();
+                else
+                    ABT_thread_yield();
+            }
+        }
+    }
+    if (t->behav == JB_CANCEL_BEFORE || t->behav == JB_CANCEL_RUNNING) {
+        if (t->behav == JB_CANCEL_RUNNING)
+            while (!__atomic_load_n(&t->started[0], __ATOMIC_SEQ_CST)) {
+                if (t->caller == JC_EXT || t->caller == JC_TASKLET)
+                    sched_yield();
+                else
+                    ABT_thread_yield();
+            }
+        for (int k = 0; k < t->ntargets; k++)
+            VRT_ABT(ABT_thread_cancel(t->th[k]));
+    }
+    __atomic_store_n(&t->joiner_in, 1, __ATOMIC_SEQ_CST);
+    if (t->api == 0) {
+        for (int k = 0; k < t->ntargets; k++) {
+            int rc = t->tkind ? ABT_task_join(t->th[k]) : ABT_thread_join(t->th[k]);
+            VRT_CHECK(rc == ABT_SUCCESS, "join:rc", "join returned %d", rc);
+        }
+        jcheck_after(t, "ABT_thread_join", 1);
+        for (int k = 0; k < t->ntargets; k++) {
+            int rc = t->tkind ? ABT_task_free(&t->th[k]) : ABT_thread_free(&t->th[k]);
+            VRT_CHECK(rc == ABT_SUCCESS, "join:free-rc", "free returned %d", rc);
+        }
+    } else if (t->api == 1) {
+        for (int k = 0; k < t->ntargets; k++) {
+            int rc = t->tkind ? ABT_task_free(&t->th[k]) : ABT_thread_free(&t->th[k]);
+            VRT_CHECK(rc == ABT_SUCCESS, "join:free-rc", "free returned %d", rc);
+        }
+        jcheck_after(t, "ABT_thread_free", 0);
+    } else {
+        if (vrt_hash64(t->salt) & 1) {
+            VRT_ABT(ABT_thread_join_many(t->ntargets, t->th));
+            jcheck_after(t, "ABT_thread_join_many", 1);
+        }
+        VRT_ABT(ABT_thread_free_many(t->ntargets, t->th));
+        jcheck_after(t, "ABT_thread_free_many", 0);
+        vrt_count(c_jmany, 1);
+    }
+    for (int k = 0; k < t->ntargets; k++) {
+        VRT_CHECK(t->th[k] == ABT_THREAD_NULL || t->th[k] == ABT_TASK_NULL, "join:handle-not-null",
+                  "handle is %p after free", (void *)t->th[k]);
+        /* a second free of the NULL handle must be rejected, not crash */
+        int rc = ABT_thread_free(&t->th[k]);
+        VRT_CHECK(rc != ABT_SUCCESS, "join:double-free-accepted", "ABT_thread_free(NULL handle) returned success");
+    }
+    __atomic_store_n(&t->joiner_done, 1, __ATOMIC_SEQ_CST);
+    vrt_progress();
+}
+static void jjoiner_fn(void *arg)
+{
+    jjoiner_do((jtrial_t *)arg);
+}
+static void *jjoiner_pt(void *arg)
+{
+    jjoiner_do((jtrial_t *)arg);
+    return NULL;
+}
+static void jsetter_fn(void *arg)
+{
+    jtrial_t *t = (jtrial_t *)arg;
+    while (!__atomic_load_n(&t->joiner_in, __ATOMIC_SEQ_CST) && t->timing != JT_AFTER_TERM)
+        ABT_thread_yield();
+    VRT_ABT(ABT_eventual_set(t->ev, NULL, 0));
+}
+
+static void run_join_trial(vrt_rng *r, world_t *w, ABT_pool staging, int idx)
+{
+    static jtrial_t T;
+    jtrial_t *t = &T;
+    memset(t, 0, sizeof(*t));
+    t->salt = vrt_next(r);
+    /* draw a legal combination */
+    for (;;) {
+        t->caller = (int)vrt_range(r, 5);
+        t->tkind = vrt_range(r, 4) == 0;
+        t->behav = (int)vrt_range(r, 7);
+        t->timing = (int)vrt_range(r, 3);
+        t->api = (int)vrt_range(r, 3);
+        if (t->tkind && t->behav != JB_RETURN && t->behav != JB_CANCEL_BEFORE)
+            continue; /* tasklets just return */
+        if (t->tkind && t->timing == JT_WHILE_RUNNING && t->caller == JC_ULT_SAME)
+            continue; /* a spinning tasklet would starve the joiner on the same stream */
+        if (t->behav == JB_CANCEL_BEFORE && t->timing != JT_BEFORE_START)
+            continue;
+        if (t->behav == JB_CANCEL_RUNNING && t->timing == JT_BEFORE_START)
+            continue;
+        if (t->behav == JB_CANCEL_RUNNING && t->timing == JT_AFTER_TERM)
+            continue;
+        if (t->behav == JB_BLOCK_FIRST && t->timing == JT_BEFORE_START)
+            continue;
+        if (t->api == 2 && t->tkind)
+            continue;
+        break;
+    }
+    if (vrt_arg_has("verbose"))
+        fprintf(stderr, "trial %d caller=%s tkind=%d behav=%s timing=%s api=%d\n", idx, jc_name[t->caller], t->tkind,
+                jb_name[t->behav], jt_name[t->timing], t->api);
+    t->ntargets = t->api == 2 ? 2 : 1;
+    /* the targets live in the pool of stream 1; a "same stream" joiner too */
+    t->tpool = 1;
+    int jpool = t->caller == JC_ULT_SAME ? 1 : 2;
+    if (t->behav == JB_BLOCK_FIRST)
+        VRT_ABT(ABT_eventual_create(0, &t->ev));
+    ABT_thread blocker = ABT_THREAD_NULL, joiner = ABT_THREAD_NULL, setter = ABT_THREAD_NULL;
+    pthread_t jpt;
+    int busy = t->timing == JT_BEFORE_START;
+    if (busy) {
+        VRT_ABT(ABT_thread_create(w->pools[1], jblocker, t, ABT_THREAD_ATTR_NULL, &blocker));
+        while (!__atomic_load_n(&t->blocker_running, __ATOMIC_SEQ_CST))
+            ABT_thread_yield();
+    }
+    if (t->behav == JB_EXIT_TO) {
+        /* a ready ULT that is not in any pool */
+        ABT_thread popped;
+        VRT_ABT(ABT_thread_create(staging, jhelper_fn, t, ABT_THREAD_ATTR_NULL, &t->helper));
+        VRT_ABT(ABT_pool_pop_thread(staging, &popped));
+        if (popped != t->helper)
+            vrt_fatal("staging pool returned another unit");
+    }
+    /* same-stream joiner queued before the targets (see DESIGN C03) when the
+     * join must precede the start; it reads the handles when it runs */
+    int joiner_first = busy && t->caller == JC_ULT_SAME;
+    if (joiner_first)
+        VRT_ABT(ABT_thread_create(w->pools[jpool], jjoiner_fn, t, ABT_THREAD_ATTR_NULL, &joiner));
+    for (int k = 0; k < t->ntargets; k++) {
+        void (*fn)(void *) = k == 0 ? jtarget0 : jtarget1;
+        if (t->tkind)
+            VRT_ABT(ABT_task_create(w->pools[t->tpool], fn, t, &t->th[k]));
+        else
+            VRT_ABT(ABT_thread_create(w->pools[t->tpool], fn, t, ABT_THREAD_ATTR_NULL, &t->th[k]));
+    }
+    if (t->behav == JB_BLOCK_FIRST)
+        VRT_ABT(ABT_thread_create(w->pools[0], jsetter_fn, t, ABT_THREAD_ATTR_NULL, &setter)); /* stream 2 may be blocked by a tasklet joiner */
+    switch (t->caller) {
+        case JC_ULT_SAME:
+        case JC_ULT_OTHER:
+            if (!joiner_first)
+                VRT_ABT(ABT_thread_create(w->pools[jpool], jjoiner_fn, t, ABT_THREAD_ATTR_NULL, &joiner));
+            break;
+        case JC_TASKLET:
+            VRT_ABT(ABT_task_create(w->pools[2], jjoiner_fn, t, &joiner));
+            break;
+        case JC_EXT:
+            pthread_create(&jpt, NULL, jjoiner_pt, t);
+            break;
+        default:
+            break;
+    }
+    if (busy) {
+        /* let the joiner get inside join before the target may start */
+        if (t->caller != JC_PRIMARY && t->caller != JC_ULT_SAME) {
+            while (!__atomic_load_n(&t->joiner_in, __ATOMIC_SEQ_CST))
+                ABT_thread_yield();
+            for (volatile int i = 0; i < 2000; i++)
+                ;
+        }
+        if (t->caller == JC_PRIMARY) {
+            /* the primary itself joins: a helper releases the blocker a little later */
+            __atomic_store_n(&t->release, 0, __ATOMIC_SEQ_CST);
+        }
+    }
+    if (t->caller == JC_PRIMARY) {
+        if (busy) {
+            /* release from another thread shortly after we entered join */
+            pthread_t rel;
+            extern void *jrelease_pt(void *);
+            pthread_create(&rel, NULL, jrelease_pt, t);
+            jjoiner_do(t);
+            pthread_join(rel, NULL);
+        } else {
+            jjoiner_do(t);
+        }
+    } else {
+        if (busy)
+            __atomic_store_n(&t->release, 1, __ATOMIC_SEQ_CST);
+        while (!__atomic_load_n(&t->joiner_done, __ATOMIC_SEQ_CST) && vrt_num_violations() == 0)
+            ABT_thread_yield();
+        if (t->caller == JC_EXT)
+            pthread_join(jpt, NULL);
+        else if (joiner != ABT_THREAD_NULL)
+            VRT_ABT(ABT_thread_free(&joiner));
+    }
+    if (vrt_num_violations())
+        return;
+    if (blocker != ABT_THREAD_NULL)
+        VRT_ABT(ABT_thread_free(&blocker));
+    if (setter != ABT_THREAD_NULL)
+        VRT_ABT(ABT_thread_free(&setter));
+    if (t->behav == JB_EXIT_TO) {
+        VRT_ABT(ABT_thread_free(&t->helper));
+        VRT_CHECK(t->helper_ran == 1, "join:exit-to-target-not-run", "the ULT named in ABT_self_exit_to did not run");
+    }
+    if (t->behav == JB_BLOCK_FIRST)
+        VRT_ABT(ABT_eventual_free(&t->ev));
+    vrt_count(c_jtrials, 1);
+    vrt_count(c_jcaller[t->caller], 1);
+    vrt_count(c_jbehav[t->behav], 1);
+    vrt_count(c_jtiming[t->timing], 1);
+    if (idx < 4)
+        vrt_sample("join trial %d: caller=%s target=%s behaviour=%s join-issued=%s api=%s", idx, jc_name[t->caller],
+                   t->tkind ? "tasklet" : "ULT", jb_name[t->behav], jt_name[t->timing],
+                   t->api == 0 ? "join+free" : t->api == 1 ? "free" : "join_many/free_many");
+    /* distinct combination bookkeeping */
+    static unsigned char seen[5][2][7][3][3];
+    if (!seen[t->caller][t->tkind][t->behav][t->timing][t->api]) {
+        seen[t->caller][t->tkind][t->behav][t->timing][t->api] = 1;
+        vrt_count(c_distinct, 1);
+    }
+}
+void *jrelease_pt(void *arg)
+{
+    jtrial_t *t = (jtrial_t *)arg;
+    while (!__atomic_load_n(&t->joiner_in, __ATOMIC_SEQ_CST))
+        sched_yield();
+    vrt_sleep_us(50);
+    __atomic_store_n(&t->release, 1, __ATOMIC_SEQ_CST);
+    return NULL;
+}
+
+static void run_join(vrt_rng *r, int trials)
+{
+    int done = 0;
+    while (done < trials && vrt_num_violations() == 0) {
+        VRT_ABT(ABT_init(0, NULL));
+        world_t w;
+        static const int pk[] = { ABT_POOL_FIFO, ABT_POOL_FIFO_WAIT, ABT_POOL_RANDWS };
+        static const int sp[] = { ABT_SCHED_BASIC, ABT_SCHED_PRIO, ABT_SCHED_DEFAULT, ABT_SCHED_BASIC_WAIT };
+        int s = sp[vrt_range(r, 4)];
+        world_create(&w, 3, 0, s == ABT_SCHED_BASIC_WAIT ? ABT_POOL_FIFO_WAIT : pk[vrt_range(r, 3)], s);
+        ABT_pool staging;
+        VRT_ABT(ABT_pool_create_basic(ABT_POOL_FIFO, ABT_POOL_ACCESS_MPMC, ABT_FALSE, &staging));
+        int batch = 40;
+        for (int i = 0; i < batch && done < trials && vrt_num_violations() == 0; i++, done++)
+            run_join_trial(r, &w, staging, done);
+        if (vrt_num_violations())
+            return;
+        VRT_ABT(ABT_pool_free(&staging));
+        char wd[128];
+        world_describe(&w, wd, sizeof(wd));
+        vrt_signature_add("%s", wd);
+        world_destroy(&w);
+        VRT_ABT(ABT_finalize());
+        vrt_count(c_cases, 1);
+    }
+}
+
 int main(int argc, char **argv)
 {
     vrt_init(argc, argv, "h_units");
@@ -697,6 +1088,25 @@ int main(int argc, char **argv)
         int max_es = (int)vrt_arg_int("max-es", 5);
         for (int i = 0; i < progs && vrt_num_violations() == 0; i++)
             run_forest(&r, i, max_es, cap);
+    } else if (!strcmp(mode, "join")) {
+        c_jtrials = vrt_counter("join_trials");
+        c_jmany = vrt_counter("join_many_trials");
+        for (int i = 0; i < 5; i++) {
+            char nm[64];
+            snprintf(nm, sizeof(nm), "caller_%s", jc_name[i]);
+            c_jcaller[i] = vrt_counter(nm);
+        }
+        for (int i = 0; i < 7; i++) {
+            char nm[64];
+            snprintf(nm, sizeof(nm), "target_%s", jb_name[i]);
+            c_jbehav[i] = vrt_counter(nm);
+        }
+        for (int i = 0; i < 3; i++) {
+            char nm[64];
+            snprintf(nm, sizeof(nm), "join_issued_%s", jt_name[i]);
+            c_jtiming[i] = vrt_counter(nm);
+        }
+        run_join(&r, (int)vrt_arg_int("trials", 400));
     } else {
         vrt_fatal("unknown mode %s", mode);
     }
